@@ -54,7 +54,8 @@ prop("C12",
      ["C12.", "C13."],
      [fam("mix","H",1500), fam("mix","L",1500), fam("nolimit","H",1000), fam("stream","L",1000), fam("fine-mix","H",1500), fam("scale","L",2,"monitor"), fam("wide","H",600)],
      [fam("mix","H",40000), fam("mix","L",40000), fam("nolimit","H",20000), fam("stream","L",20000), fam("evict","H",20000), fam("fine-mix","H",40000), fam("fine-mix","L",40000), fam("scale","L",16,"monitor"), fam("scale","H",16,"monitor"), fam("wide","H",20000), fam("wide","L",20000)],
-     cosim_ignore="order,stamp")
+     cosim_ignore="order,stamp",
+     smoke=True)
 prop("C13",
      ["C13_no_panic", "C13_runs_never_panic", "C13_slow_assertions_hold", "C13_second_half_commutes", "C13_fine_grained_runs_linearise", "C13_fine_grained_states_are_reachable", "C13_second_half_reports_what_was_announced", "C13_fine_witness"],
      ["C13."],
